@@ -91,6 +91,33 @@ theorem c19_replay_then_direct (st : St) (k : Nat) (evs : List Ev) (hs : st.snif
     connRead st k evs = .ok (srcRead { st with buffer := [], capNonzero := false, direct := true } k evs) :=
   replay_drained_goes_direct st k evs hs hd hcap hp
 
+/-- `c19_no_stale_error`: for EVERY byte stream and EVERY socket script that never returns data
+    together with an error — pauses, the sniff time-out firing inside any matcher's read after
+    any first segment, EOF and read errors anywhere — a connection that `Listener.serve` hands
+    to a service remembers no error of the sniffing phase; and from such a state EVERY read of
+    the service, with EVERY buffer size, again leaves a state that remembers none and either
+    returns no error, leaving the script and the undelivered bytes untouched (it was served
+    from the replay buffer, or asked for 0 bytes), or is as a whole the result of the socket's
+    own read of the next event of the script in the socket's present state (undelivered bytes,
+    deadline, expiry, closed).  By induction over the service's reads: an error the service
+    sees is always the one the socket produces at that point of the script; an error of an
+    event that a matcher already consumed never reappears.  (With `c19_replay`: nothing is
+    lost either.) -/
+theorem c19_no_stale_error (s : Bytes) (evs : List Ev) (hne : noDataErr evs) (r : ServeRes)
+    (h : genServe s evs = .ok r) (hr : r.route ≠ .closed) :
+    (r.st.lastErr = none ∧ r.st.sniffing = false ∧ noDataErr r.evs) ∧
+    ∀ (st : St) (k : Nat) (evs' : List Ev) (q : ReadRes), st.lastErr = none → st.sniffing = false →
+      connRead st k evs' = .ok q →
+      q.st.lastErr = none ∧ q.st.sniffing = false ∧
+      ((q.err = none ∧ q.evs = evs' ∧ q.st.rem = st.rem) ∨
+       ∃ st', q = srcRead st' k evs' ∧ st'.rem = st.rem ∧ st'.deadline = st.deadline ∧
+         st'.timedOut = st.timedOut ∧ st'.closed = st.closed) := by
+  obtain ⟨hl, hne', hsn⟩ := serve_lastErr genTimeoutSet genTrees s evs hne r h
+  refine ⟨⟨hl, ?_, hne'⟩, fun st k evs' q hl' hs' hq => connRead_err_is_the_sockets hq hl' hs'⟩
+  cases hroute : r.route with
+  | service j => exact hsn j hroute
+  | closed => exact absurd hroute hr
+
 /-- `Listener.serve` never panics (the slice `s.buffer.Bytes()[s.bufferRead:s.bufferSize]`
     stays in range) for every stream and every socket script, and every matcher pass sees
     the stream from its first byte. -/
@@ -233,6 +260,22 @@ theorem c19_fragment_then_timeout_examples (evs : List Ev) :
     exact ⟨r, hr, by rw [h]; decide⟩
   · obtain ⟨r, hr, h⟩ := c19_fragment_then_timeout (ascii "GET / HTTP/1.1\r\n\r\n") 4 (by decide) (by decide) (by decide) evs
     exact ⟨r, hr, by rw [h]; decide⟩
+
+/-- non-vacuity of `c19_no_stale_error`, and the scenario it is about: 11 bytes of a request
+    line (`GET /live/a`), then a pause past the sniff time-out inside the RTSP matcher's read,
+    then the rest — the HTTP service gets the connection, and the connection it gets remembers
+    no error: its reads return the 11 buffered bytes without the time-out of the sniffing phase. -/
+theorem c19_no_stale_error_example :
+    ∃ r, genServe (ascii "GET /live/a.flv HTTP/1.1\r\n\r\n") [.deliver 11, .fail .timeout, .deliver 400] = .ok r ∧
+      svcOfRoute r.route = .http ∧ r.st.lastErr = none ∧ r.st.sniffing = false := by
+  obtain ⟨r, hr, h⟩ := c19_fragment_then_timeout (ascii "GET /live/a.flv HTTP/1.1\r\n\r\n") 11 (by decide) (by decide) (by decide) [.deliver 400]
+  have hroute : svcOfRoute r.route = .http := by rw [h]; decide
+  have hne : noDataErr [.deliver 11, .fail .timeout, .deliver 400] := by
+    intro e he n x; simp at he; rcases he with h | h | h <;> subst h <;> simp
+  have hnc : r.route ≠ .closed := by
+    intro hc; rw [hc, svcOfRoute_closed] at hroute; cases hroute
+  obtain ⟨⟨h1, h2, _⟩, _⟩ := c19_no_stale_error _ _ hne r hr hnc
+  exact ⟨r, hr, hroute, h1, h2⟩
 
 /-- non-vacuity of `c19_fragment_then_timeout`: 12 bytes of a 31-byte stream -/
 example : (1 : Nat) ≤ 12 ∧ 12 ≤ (ascii "OPTIONS * RTSP/1.0\r\nCSeq: 1\r\n\r\n").length ∧ (12 : Nat) ≤ 15 := by decide
